@@ -19,7 +19,8 @@ import random
 
 from . import common
 
-MODULES = ["CoapVerif.Props.C11", "CoapVerif.Findings.C11", "CoapVerif.Props.C11NStart", "CoapVerif.Findings.C11NStart"]
+MODULES = ["CoapVerif.Props.C11", "CoapVerif.Findings.C11", "CoapVerif.Props.C11NStart", "CoapVerif.Findings.C11NStart",
+           "CoapVerif.Props.C11ReplyCache"]
 GENERATED = ["WaitShape.lean", "Dedup.lean"]
 
 
@@ -53,6 +54,7 @@ def gen_scenario(rng):
     waiting = []       # nested exchanges not yet answered: (k, kind, acked)
     blocking = 0
     pinged = False     # one ping per history (a pong answers the latest ping only)
+    hijacked = []      # requests whose handler took the message over (`j`) and whose new owner has not given it back yet
     for _ in range(rng.randint(3, 14)):
         r = rng.random()
         if r < 0.45:
@@ -83,6 +85,9 @@ def gen_scenario(rng):
                 prog = "r"
             if prog != "r":
                 blocking += 1
+            if rng.random() < 0.05:
+                prog = "j+" + prog       # the handler passes the request message on before anything else
+                hijacked.append(nm)
             ops.append("arrive:%d:%s" % (nm, prog))
             nm += 1
         elif r < 0.49:
@@ -113,6 +118,8 @@ def gen_scenario(rng):
             ops.append("sleep:%d" % rng.choice([100, 1000, 5000, 31000]))
         elif r < 0.96:
             ops.append("close")
+        elif hijacked:
+            ops.append("rel:%d" % hijacked.pop(0))
         else:
             ops.append("settle")
     ops.append(rng.choice(["settle", "sleep:31000", "sleep:31000"]))
@@ -426,6 +433,73 @@ NSTART_FULL_QUEUE = ["scn udp@1 0 0 0 call:g9 arrive:1:g1 arrive:2:r ack:9 sep:9
                      "scn udp@1 16 0 0 call:g9 arrive:1:g1 %s ack:9 sep:9 resp:1 sleep:31000 settle" % " ".join("arrive:%d:r" % (20 + i) for i in range(17))]
 
 
+def hijack_family(rng=None):
+    """A handler takes its request message over (Hijack, handler step `j`) and passes it on to another part of the application; that
+    new owner is done — and gives the message back to the pool (`rel:<m>`) — while the connection is still busy with that very
+    request: the handler works on (`s<ms>`), answers, or waits in a nested call.  The peer's next messages are read meanwhile (into
+    pooled message objects, possibly the one just given back) and wait in the receive queue.  When the handler returns the
+    connection finishes its own part for request m.  Every later message must reach its handler exactly once: a message object that
+    holds a queued message belongs to that message.  Also: released only after the handler has returned, never released, released
+    when nothing else arrives; both transports, queue sizes 16 / 1 / 0."""
+    out = []
+    combos = [(tr, q) for tr in ("udp", "tcp") for q in (16, 1, 0)]
+    if rng is not None:
+        combos = [(rng.choice(["udp", "tcp"]), rng.choice([16, 2, 1, 0])) for _ in range(3)]
+    for tr, q in combos:
+        a = 100 if rng is None else rng.choice([20, 100, 700])
+        n = 3 if rng is None else rng.randint(1, 5)
+        burst = "burst:" + "-".join(str(2 + i) for i in range(n))
+        one_by_one = "&".join("arrive:%d:r" % (2 + i) for i in range(n))
+        sep = "sep:1" if tr == "udp" else "resp:1"
+        out += [
+            # the handler works on after it has passed the message on; the new owner is done first; the next messages queue up
+            "scn %s %d 0 0 arrive:1:j+s%d rel:1&%s sleep:%d settle" % (tr, q, a, one_by_one, a + 100),
+            "scn %s %d 0 0 arrive:1:j+a+s%d rel:1&%s sleep:%d settle" % (tr, q, a, burst, a + 100),
+            # … one idle point later
+            "scn %s %d 0 0 arrive:1:j+s%d rel:1 %s sleep:%d settle" % (tr, q, a, burst, a + 100),
+            # the handler waits in a nested call; the replacement loop is busy with request 2; 3 … queue up; then the answer
+            "scn %s %d 0 0 arrive:1:j+g1 rel:1&arrive:2:s%d&%s resp:1 sleep:%d sleep:31000 settle"
+            % (tr, max(q, 1), a, "&".join("arrive:%d:r" % (3 + i) for i in range(n)), a + 100),
+            "scn %s %d 0 0 arrive:1:j+n1 arrive:2:s%d rel:1&%s %s sleep:%d sleep:31000 settle"
+            % (tr, max(q, 1), a, "&".join("arrive:%d:r" % (3 + i) for i in range(n)), sep, a + 100),
+            # the new owner is done after the handler has returned / never / twice the pattern in a row
+            "scn %s %d 0 0 arrive:1:j+a settle rel:1&%s settle" % (tr, q, burst),
+            "scn %s %d 0 0 arrive:1:j+s%d %s sleep:%d settle" % (tr, q, a, burst, a + 100),
+            "scn %s %d 0 0 arrive:1:j+s%d rel:1&arrive:2:j+s%d&arrive:3:r sleep:%d rel:2&arrive:4:r&arrive:5:r sleep:%d settle" % (tr, q, a, a, a + 50, 2 * a + 100),
+        ]
+    return out
+
+
+# EXCHANGE_LIFETIME is 247 s; the reply cache of a datagram connection must answer a copy of a message that is that young, however
+# many other exchanges the peer has had on the connection in between.  Sizes around powers of two up to 8192 (+1) are part of the set.
+FLOOD_SIZES_QUICK = [4095, 4096, 4097]
+FLOOD_SIZES_THOROUGH = [1023, 1024, 1025, 2048, 2049, 4095, 4096, 4097, 6000, 8192, 8193]
+
+
+def flood_family(rng=None, sizes=None):
+    """A busy, long-lived datagram connection: the peer sends a request, then n further distinct confirmable (or non-confirmable)
+    requests (`flood:<m0>:<n>:<con|non>`, every handler answers, so every reply is cached), all inside EXCHANGE_LIFETIME; then a
+    copy of the first request (same message ID) turns up — and copies of requests in the middle of the run.  A copy is answered from
+    the reply cache: no handler runs twice.  n = 4095, 4096, 4097 in both tiers (1023 … 8193 in thorough); randomised copies draw
+    n from 4000 … 4300; the virtual clock is moved 200 s in one variant (still inside the lifetime)."""
+    out = []
+    if rng is not None:
+        n = rng.randint(4000, 4300)
+        i = rng.randint(0, 200)
+        q = rng.choice([16, 1, 0])
+        return ["scn udp %d 0 0 arrivem:1:a:con:+7000 flood:10000:%d:con dup:1 dup:%d arrive:2:r dup:1 settle" % (q, n, 10000 + i),
+                "scn udp %d 0 0 arrivem:1:a:%s:+7000 flood:10000:%d:con sleep:%d dup:1 settle" % (q, rng.choice(["con", "non"]), n, rng.choice([1000, 45000, 200000]))]
+    for n in (sizes or FLOOD_SIZES_QUICK):
+        out.append("scn udp 16 0 0 arrivem:1:a:con:+7000 flood:10000:%d:con dup:1 arrive:2:r dup:10000 dup:1 settle" % n)
+    # non-confirmable requests (the replies are confirmable messages of the connection: 500 at a time, the peer acknowledges them)
+    out.append("scn udp 0 0 0 arrivem:1:a:non:+7000 %s dup:1 dup:10000 settle" % " ".join("flood:%d:500:non" % (10000 + 500 * i) for i in range(9)))
+    if sizes:
+        out.append("scn udp 16 0 0 arrivem:1:a:con:+7000 flood:10000:6000:con sleep:200000 dup:1 dup:10000 dup:13000 settle")
+        out.append("scn udp 1 0 0 arrive:1:g1 flood:10000:4097:con resp:1 dup:10000 sleep:31000 settle")
+        out.append("scn tcp 16 0 0 arrive:1:g1 flood:10000:4097:con resp:1 sleep:31000 settle")
+    return out
+
+
 # one discovery of a real udp.Server over a loopback socket each (real time, about 1.6 s per line): the receiver callback issues a
 # blocking request on the responder's connection; order of the responder's messages after it
 DISCOVERY = ["disc ack-d2-sep", "disc d2-ack-sep", "disc ack-sep-d2", "disc d2-pig"]
@@ -477,7 +551,8 @@ def corpus_lines():
 def gen_lines(ctx):
     rng = random.Random(ctx.seed * 7727 + 11)
     L = [(l, True) for l in corpus_lines() + FIXED + stale_family() + requeue_family() + callback_family() + framesize_family()
-         + empty_family() + midclash_family() + sametoken_family() + dedup_family() + monitor_family() + noteclash_family() + nstart_family() + NSTART_FULL_QUEUE + MIDLOCK_NON + DUPLOCK + DISCOVERY]
+         + empty_family() + midclash_family() + sametoken_family() + dedup_family() + monitor_family() + noteclash_family() + nstart_family() + hijack_family() + NSTART_FULL_QUEUE + MIDLOCK_NON + DUPLOCK + DISCOVERY
+         + flood_family(sizes=FLOOD_SIZES_THOROUGH if ctx.tier == "thorough" else None)]
     if ctx.tier == "thorough":
         L += [(l, True) for l in DUPLOCK_THOROUGH]
     for _ in range(20 if ctx.tier == "thorough" else 2):
@@ -490,6 +565,10 @@ def gen_lines(ctx):
         L += [(l, True) for l in stale_family(rng)]
     for _ in range(40 if ctx.tier == "thorough" else 4):
         L += [(l, True) for l in nstart_family(rng)]
+    for _ in range(20 if ctx.tier == "thorough" else 2):
+        L += [(l, True) for l in hijack_family(rng)]
+    for _ in range(3 if ctx.tier == "thorough" else 1):
+        L += [(l, True) for l in flood_family(rng)]
     for _ in range(30 if ctx.tier == "thorough" else 3):
         L += [(l, True) for l in requeue_family(rng) + callback_family(rng) + framesize_family(rng)]
     for _ in range(10000 if ctx.tier == "thorough" else 1500):
@@ -504,6 +583,11 @@ def canon(line, ops=None):
     if ops is not None and "close" in ops:
         segs = segs[:ops.index("close")]
     return ";".join(",".join(sorted(seg.split(","))) for seg in segs)
+
+
+def _short(obs):
+    """the observation of a history with thousands of messages, for the one-line report (the replay file has all of it)"""
+    return obs if len(obs) <= 600 else obs[:200] + " … " + obs[-300:]
 
 
 def _run_once(ctx, exe, lines, tag, hang_s=None):
@@ -669,7 +753,7 @@ def explore(ctx, art):
                 sig = "C11:nested-stall:" + cause
             else:
                 sig = "C11:%s:%s" % (clause, line)
-            ctx.violations.append(common.Violation(clause, sig, "%s: observed `%s`: %s (current loop blocked in: %s)" % (line, impl, judge, cls),
+            ctx.violations.append(common.Violation(clause, sig, "%s: observed `%s`: %s (current loop blocked in: %s)" % (line, _short(impl), judge, cls),
                                                    {"input": [line], "observed": impl, "judge": judge, "model": model, "blocked_in": cls}))
             ctx.count("judge:%s:%s" % (clause, cls))
         if nontriv.get(line) and line not in distinct:
